@@ -328,6 +328,26 @@ Definition lc_same_live (s t : Lifecycle_state) : Prop :=
   lc_err s = lc_err t /\ (lc_oeid s =? lc_eid s) = (lc_oeid t =? lc_eid t) /\
   lc_hasloop s = false /\ lc_spc s = LcSupIdle.
 
+(** the computation, on an explicit closed and clean state (everything not fixed by
+    [Lifecycle_close_clean_state] is a variable) *)
+Lemma lc_reopen_explicit : forall m active oeid rgen cancelled stopping st latch reid pdisc pt7 pups pclose stopreq
+    eid etd eup estop1 estop2 lgen lcount lpc lprev lown reconnects redials ndials npub,
+  let s := LcState active LcIdle oeid true rgen cancelled stopping LcSupStopped st latch LcSupIdle reid pdisc pt7 pups
+             pclose stopreq false true eid etd true false false eup estop1 estop2 false false false false false 0 0 false
+             false lgen lcount lpc lprev lown 0 0 false reconnects redials ndials npub in
+  exists s1 s0,
+    Lifecycle_run s (lc_open_prefix m) = Some s1 /\
+    Lifecycle_run (Lifecycle_init (lc_active s)) (lc_open_prefix m) = Some s0 /\
+    lc_same_live s1 s0 /\ lc_api s1 = LcOStart m LcSP0 /\
+    Lifecycle_goroutines s1 = 3 /\ Lifecycle_sockets s1 = 0.
+Proof.
+  intros. subst s. vm_compute.
+  match goal with
+  | |- exists s1 s0, Some ?X = Some s1 /\ Some ?Y = Some s0 /\ _ => exists X, Y
+  end.
+  rewrite !Nat.eqb_refl. repeat split.
+Qed.
+
 Theorem Lifecycle_reopen : forall s m, lc_inv s = true -> lc_closed s ->
   exists s1 s0,
     Lifecycle_run s (lc_open_prefix m) = Some s1 /\
@@ -338,23 +358,29 @@ Proof.
   intros s m Hi Hc.
   destruct (Lifecycle_close_clean_state s Hi Hc) as (G & K & L & N & St & D).
   destruct Hc as [Ha Hs].
-  lc_destruct_state s. cbn in Ha, Hs, L, N, St, D. subst api shutdown edone.
-  unfold lc_no_loops in L; cbn in L.
-  apply andb_true_iff in L; destruct L as [L L3]. apply andb_true_iff in L; destruct L as [L1 L2].
-  apply negb_true_iff in L1. apply Nat.eqb_eq in L2, L3. subst hasloop tailc tailn.
-  lc_open_inv Hi. lc_enum_facts.
-  lc_have (negb esock). lc_have (negb elis). lc_have (negb ahold). lc_have (negb gsender). lc_have (negb grecv).
-  lc_have (negb gproc). lc_have (negb gaccept). lc_have (glt =? 0). lc_have (gt7 =? 0). lc_have (negb gjoin).
-  lc_have (negb gnotif). lc_have (negb err). lc_have hascur.
-  repeat match goal with
-         | H : negb _ = true |- _ => apply negb_true_iff in H
-         | H : (_ =? 0) = true |- _ => apply Nat.eqb_eq in H
-         end.
-  subst.
-  destruct sup; try discriminate St.
-  eexists. eexists. split; [|split].
-  - unfold lc_open_prefix, Lifecycle_run, Lifecycle_exec. cbn. reflexivity.
-  - unfold lc_open_prefix, Lifecycle_run, Lifecycle_exec. cbn. reflexivity.
-  - cbn. unfold lc_same_live. cbn. rewrite !Nat.eqb_refl.
-    destruct active; repeat split; reflexivity.
+  assert (E : exists oeid rgen cancelled stopping st latch reid pdisc pt7 pups pclose stopreq
+    eid etd eup estop1 estop2 lgen lcount lpc lprev lown reconnects redials ndials npub,
+    s = LcState (lc_active s) LcIdle oeid true rgen cancelled stopping LcSupStopped st latch LcSupIdle reid pdisc pt7 pups
+             pclose stopreq false true eid etd true false false eup estop1 estop2 false false false false false 0 0 false
+             false lgen lcount lpc lprev lown 0 0 false reconnects redials ndials npub).
+  { clear G K.
+    lc_destruct_state s. cbn in Ha, Hs, L, N, St, D. subst api shutdown edone.
+    unfold lc_no_loops in L; cbn in L.
+    apply andb_true_iff in L; destruct L as [L L3]. apply andb_true_iff in L; destruct L as [L1 L2].
+    apply negb_true_iff in L1. apply Nat.eqb_eq in L2, L3. subst hasloop tailc tailn.
+    lc_open_inv Hi. lc_enum_facts.
+    lc_have (negb esock). lc_have (negb elis). lc_have (negb ahold). lc_have (negb gsender). lc_have (negb grecv).
+    lc_have (negb gproc). lc_have (negb gaccept). lc_have (glt =? 0). lc_have (gt7 =? 0). lc_have (negb gjoin).
+    lc_have (negb gnotif). lc_have (negb err). lc_have hascur. lc_have (lc_spc_idle spc).
+    repeat match goal with
+           | H : negb _ = true |- _ => apply negb_true_iff in H
+           | H : (_ =? 0) = true |- _ => apply Nat.eqb_eq in H
+           end.
+    subst.
+    destruct sup; try discriminate St. destruct spc; try discriminate.
+    cbn. do 26 eexists. reflexivity. }
+  destruct E as (oeid & rgen & cancelled & stopping & st & latch & reid & pdisc & pt7 & pups & pclose & stopreq &
+    eid & etd & eup & estop1 & estop2 & lgen & lcount & lpc & lprev & lown & reconnects & redials & ndials & npub & E).
+  rewrite E. cbn [lc_active].
+  apply lc_reopen_explicit.
 Qed.
